@@ -48,6 +48,11 @@ EXEC_FIXED = [
 def fixed_cases(tier):
     out = _prog.fixed_cases(tier)
     out += [{"src": s, "mode": "exec", "optimize": 0, "min_version": 7, "exec": True, "_label": "exec_fixed"} for s in EXEC_FIXED]
+    # the jump-width cascade family, symbolically and executed
+    for i, s in enumerate(gen_source.jump_cascade_sources()):
+        out.append({"src": s, "mode": "exec", "optimize": 0, "min_version": 7, "_label": "jump_cascade"})
+        if i % 2 == 0:
+            out.append({"src": s + "print(out)\n", "mode": "exec", "optimize": 0, "min_version": 7, "exec": True, "_label": "jump_cascade_exec"})
     return out
 
 
